@@ -20,7 +20,7 @@ ASSUMPTIONS = [
   "designs come from the E1 grammar (Bits/struct signals, slices, fields, hierarchy, connections, if/for/temporaries)",
   "forced schedules are installed by overwriting top._sched.update_schedule / schedule_ff before PrepareSimPass",
 ]
-QUICK_S = 80
+QUICK_S = 240
 THOROUGH_S = 1200
 
 
